@@ -24,6 +24,8 @@ UG_RULES = [
     Rule(r"this->size\(\)", "self->data_->size", "*", note="inline accessor size() { return data_.size; }"),
     Rule(r"\bdata_\.", "self->data_->", "*", note="const& member -> pointer"),
     Rule(r"auto bin =", "size_type bin =", (0, 1), note="auto -> size_type (static_cast target)"),
+    Rule(r"\(\*this\)\[", "UG_index_body(self, ", "*", note="(*this)[i] -> the real operator[] body (inlined; only present in edited text)"),
+    Rule(r"(UG_index_body\(self, [^\[\]]*)\]", r"\1)", "*", note="(*this)[i] closing bracket"),
 ]
 
 
@@ -69,7 +71,10 @@ void h_from_bounds(void)
 def build_ug_find(ctx):
     valid = _ug_valid_text(ctx)
     pc = ctx.func(UGRID, r"CELER_FUNCTION size_type UniformGrid::find\(value_type value\) const", UG_RULES, name="UniformGrid::find")
+    ix = ctx.func(UGRID, r"CELER_FUNCTION auto UniformGrid::operator\[\]\(size_type i\) const -> value_type", UG_RULES, name="UniformGrid::operator[]")
     return (HDR + UG_TYPES.replace("((d).size >= 2 && (d).delta > 0 && (d).front < (d).back)", "(" + valid + ")") + """
+static value_type UG_index_body(UniformGrid const* self, size_type i)       /* real body of operator[] (contract: c18_ug_index); unused unless find() calls it */
+{""" + ix.body + """}
 size_type UG_find(UniformGrid const* self, value_type value)
 __CPROVER_requires(self != 0 && self->data_ != 0)
 /* the grid comes from UniformGridData::from_bounds (its contract, unit c18_from_bounds) */
